@@ -423,7 +423,9 @@ class Ctx:
 
     # ------------------------------------------------------------------ reporting
     def save_replay(self, name, text):
-        path = os.path.join(self.replay_dir, name)
+        self._rp = getattr(self, '_rp', 0) + 1
+        base, ext = os.path.splitext(name)
+        path = os.path.join(self.replay_dir, '%s-%d%s' % (base, self._rp, ext))
         with open(path, 'w') as f:
             f.write(text)
         return path
